@@ -201,6 +201,9 @@ def _one_case(t, envs):
                 obs["err"] = "notfunction:" + type(f).__name__
             else:
                 obs["len"] = len(f)
+                # documented: "If any of the variables of f has value None, then f.value() returns None"
+                v0 = f.value() if callable(getattr(f, "value", None)) else f.value
+                obs["none_val"] = v0 is None
                 vals = []
                 for e in envs:
                     for v in VARS:
@@ -308,6 +311,8 @@ def run(tier, seed, replay=None):
                 bad = ("len", "len(f) = %d, specified %d" % (o["len"], e["len"]))
             elif [[int(a) if a == int(a) else a for a in v] for v in o["vals"]] != e["vals"]:
                 bad = ("value", "f.value() = %s, specified %s" % (o["vals"][0], e["vals"][0]))
+            elif not o.get("none_val", True):
+                bad = ("value-none", "f.value() is not None although no variable has a value")
             elif not o["noalias"]:
                 bad = ("alias", "+f shares state with f: an in-place update of the copy changed f")
             else:
